@@ -435,10 +435,10 @@ class C19(Prop):
 
     def rule(self):
         return ("Real builds from /repo's working tree: cargo check --no-default-features for the empty selection, "
-                "all_msgs without std, single message features (quick: 8 seeded; thorough: all 108, exhaustive) and "
-                "serde combinations (quick 2, thorough 12); per-feature driver builds (quick 3 seeded, thorough all "
-                "108) that decode a fixed corpus (the repository's test frames of every type plus an unsupported "
-                "number) and are compared with the full build: type n identical Debug text, every other number "
+                "all_msgs without std, every single message feature (both tiers, exhaustive) and "
+                "serde combinations (quick 2, thorough 12); per-feature driver builds (quick 5 seeded + suspicious rows, thorough all) "
+                "that decode a fixed corpus (the repository's test frames of every type, five hostile payload shapes of every "
+                "supported number, MSM frames with one or both masks empty, unsupported numbers) and are compared with the full build: type n identical Debug text, every other number "
                 "MsgNotSupported. Non-trivial = distinct configurations built.")
 
     def trusted(self):
@@ -461,7 +461,9 @@ class C19(Prop):
             inc = dict((a, b) for a, b in sch["includes"])
             return (inc[m] in fs) if m in inc else True
         open_cfgs = [f for f in feats if any(enabled([f], m) and not enabled([f], d) for m, ds in sch["uses"].items() for d in ds)]
-        singles = feats if thorough else sorted(set(r.sample(feats, 8) + open_cfgs))
+        # cargo check is cheap (all single-feature selections in well under a minute on 8 slots): both tiers build
+        # every one of them; the tiers differ in the number of serde combinations and per-feature decode drivers
+        singles = list(feats)
         configs = [("", "empty")] + [("all_msgs", "all_msgs-nostd")] + [(f, "single") for f in singles]
         serde = r.sample(feats, 12 if thorough else 2)
         configs += [(f + ",serde", "single+serde") for f in serde] + [("serde", "serde-only")]
@@ -469,7 +471,7 @@ class C19(Prop):
         results = []
         t0 = time.time()
         jobs = []
-        nslots = 8 if thorough else 4
+        nslots = 8
         pending = list(configs)
         running = []
         env = dict(os.environ, CARGO_NET_OFFLINE="true")
@@ -524,7 +526,7 @@ class C19(Prop):
         for row in sch["dispatch"]:
             if "msg%d" % row["number"] in feats and row["feature"] != "msg%d" % row["number"]:
                 suspicious.append("msg%d" % row["number"])
-        feats_drv = feats if thorough else sorted(set(r.sample(feats, 3) + suspicious))
+        feats_drv = feats if thorough else sorted(set(r.sample(feats, 5) + suspicious))
         dres = drv.run(feats_drv)
         for f, ok, why in dres:
             classes["feature-driver"] = classes.get("feature-driver", 0) + 1
@@ -535,7 +537,7 @@ class C19(Prop):
         ctx.cov["distinct_nontrivial"] = len({c[0][0] for c in results}) + len(dres)
         ctx.cov["oracle_failures"] = fails
         ctx.cov["classes"] = classes
-        ctx.cov["exhaustive"] = thorough
+        ctx.cov["exhaustive"] = True      # over single-feature selections (cargo check); drivers: thorough only
         ctx.cov["samples"] = [{"config": c[0][0] or "<none>", "class": c[0][1], "cargo_check_rc": c[1]} for c in results[:6]] + \
                              [{"feature_driver": f, "ok": ok} for f, ok, _ in dres[:3]]
         ctx.cov["build_wall_s"] = round(time.time() - t0, 1)
